@@ -59,4 +59,99 @@ Proof.
     by (apply (Z.mod_unique_pos _ _ (b * 8 + x)); lia).
   destruct ((2 <=? i) && (i <? 6))%bool eqn:U; [|reflexivity].
   apply Bool.andb_true_iff in U. destruct U as [U1 U2]. apply Z.leb_le in U1. apply Z.ltb_lt in U2. lia.
+(** ** Fokker-Planck step (damping/diffusion), model of FokkerPlanckMap (Model/FokkerPlanck.v),
+    stencil arithmetic regenerated from the constructor on every run (Gen/Gen_FPStencil.v).
+    All statements hold in every field [K], for every damping decrement [e1], every grid
+    spacing [delta <> 0], every uniform axis [p (j+1) = p j + delta] (any [pmin]) and every
+    FPType [v] (0 none, 1 damping_only, 2 diffusion_only, 3 full). *)
+From Coq Require Import Lia.
+From Inovesa Require Import Gen.Gen_FPStencil Model.FokkerPlanck Proofs.FPGridP Proofs.FokkerPlanckP.
+
+(** column sums of the 3-point operator: the total weight with which input cell [k] of an energy
+    column enters the output column is one, for every interior [k] *)
+Theorem C01_fp3_column_sums :
+  forall (K : Fld) (e1 delta : K) (p : Z -> K) (v n le m k : Z),
+    n < 2 ^ 32 -> 2 <= k <= n - 3 -> uniform K delta p -> delta <> f0 ->
+    colw K 3 (H3 K e1 delta p v n le m) (fun _ => f1) n k = f1.
+Proof. exact fp3_column_sums. Qed.
+Print Assumptions C01_fp3_column_sums.
+
+(** one energy column with interior support *)
+Theorem C01_fp3_conserves :
+  forall (K : Fld) (e1 delta : K) (p : Z -> K) (v n le m : Z) (r : Z -> K),
+    2 <= n < 2 ^ 32 -> supp r 2 (n - 2) -> uniform K delta p -> delta <> f0 ->
+    sumZ 0 (Z.to_nat n) (fp_col_out 3 (H3 K e1 delta p v n le m) r) = sumZ 0 (Z.to_nat n) r.
+Proof. exact fp3_moment0. Qed.
+Print Assumptions C01_fp3_conserves.
+
+(** the whole bunch-major array as FokkerPlanckMap::apply walks it: every column of every bunch *)
+Theorem C01_fp3_conserves_grid :
+  forall (K : Fld) (e1 delta : K) (p : Z -> K) (v n le m xs nb : Z) (D : Z -> K),
+    2 <= n < 2 ^ 32 -> 0 < xs -> 0 <= nb -> uniform K delta p -> delta <> f0 ->
+    (forall c, 0 <= c < nb * xs -> supp (fun s => D (c * n + s)) 2 (n - 2)) ->
+    sumZ 0 (Z.to_nat (nb * xs * n)) (fp_apply n xs 3 (H3 K e1 delta p v n le m) D) =
+    sumZ 0 (Z.to_nat (nb * xs * n)) D.
+Proof. exact fp3_conserves_grid. Qed.
+Print Assumptions C01_fp3_conserves_grid.
+
+(** *** 4-point one-sided stencil.  [m = (meshindex_t) zerobin] is the row where the stencil switches
+    sides, [le] the end of the first loop ([dom4]: m <= le <= m+1, 2 <= m <= n-2, n < 2^32).
+    Every interior column sum is [1 + e1 * c4 k] with damping, [1] without; [c4 k] vanishes outside
+    the four rows m-2..m+1, where it is -p_m/6d, (3p_m-d)/6d, -(3p_m-2d)/6d, (p_m-d)/6d. *)
+Theorem C01_fp4_column_sums :
+  forall (K : Fld) (e1 delta : K) (p : Z -> K) (v n le m k : Z),
+    dom4 n le m -> uniform K delta p -> delta <> f0 -> 5 <= m <= n - 5 -> 3 <= k <= n - 4 ->
+    colw K 4 (H4 K e1 delta p v n le m) (fun _ => f1) n k =
+    fadd f1 (fmul (opt (has_damp v) e1) (c4 K delta p m k)).
+Proof. exact fp4_column_sum. Qed.
+Print Assumptions C01_fp4_column_sums.
+
+Theorem C01_fp4_defect_rows :
+  forall (K : Fld) (delta : K) (p : Z -> K) (m k : Z), k < m - 2 \/ m + 1 < k -> c4 K delta p m k = f0.
+Proof. exact c4_outside. Qed.
+Print Assumptions C01_fp4_defect_rows.
+
+(** the charge defect of one column, and of the whole array: proportional to the damping decrement,
+    confined to the four switch rows; exactly zero for diffusion_only and none *)
+Theorem C01_fp4_defect :
+  forall (K : Fld) (e1 delta : K) (p : Z -> K) (v n le m : Z) (r : Z -> K),
+    dom4 n le m -> uniform K delta p -> delta <> f0 -> 5 <= m <= n - 5 -> supp r 3 (n - 3) ->
+    sumZ 0 (Z.to_nat n) (fp_col_out 4 (H4 K e1 delta p v n le m) r) =
+    fadd (sumZ 0 (Z.to_nat n) r) (fmul (opt (has_damp v) e1) (sw4 K delta p m r)).
+Proof. exact fp4_defect. Qed.
+Print Assumptions C01_fp4_defect.
+
+Theorem C01_fp4_defect_grid :
+  forall (K : Fld) (e1 delta : K) (p : Z -> K) (v n le m xs nb : Z) (D : Z -> K),
+    dom4 n le m -> uniform K delta p -> delta <> f0 -> 5 <= m <= n - 5 -> 0 < xs -> 0 <= nb ->
+    (forall c, 0 <= c < nb * xs -> supp (fun s => D (c * n + s)) 3 (n - 3)) ->
+    sumZ 0 (Z.to_nat (nb * xs * n)) (fp_apply n xs 4 (H4 K e1 delta p v n le m) D) =
+    fadd (sumZ 0 (Z.to_nat (nb * xs * n)) D)
+         (fmul (opt (has_damp v) e1)
+               (sumZ 0 (Z.to_nat (nb * xs)) (fun c => sw4 K delta p m (fun s => D (c * n + s))))).
+Proof. exact fp4_defect_grid. Qed.
+Print Assumptions C01_fp4_defect_grid.
+
+Theorem C01_fp4_conserves_without_damping :
+  forall (K : Fld) (e1 delta : K) (p : Z -> K) (v n le m : Z) (r : Z -> K),
+    dom4 n le m -> uniform K delta p -> delta <> f0 -> 5 <= m <= n - 5 -> supp r 3 (n - 3) ->
+    has_damp v = false ->
+    sumZ 0 (Z.to_nat n) (fp_col_out 4 (H4 K e1 delta p v n le m) r) = sumZ 0 (Z.to_nat n) r.
+Proof. exact fp4_conserves_nodamp. Qed.
+Print Assumptions C01_fp4_conserves_without_damping.
+
+(** the identity map (inc/SM/Identity.hpp copies the array) conserves trivially; stated for completeness *)
+Theorem C01_identity_conserves :
+  forall (K : Fld) (N : nat) (D : Z -> K), sumZ 0 N (fun i => D i) = sumZ 0 N D.
+Proof. intros K N D. reflexivity. Qed.
+Print Assumptions C01_identity_conserves.
+
+(** non-vacuity: a uniform axis, a domain, and a concrete column over Qc (n = 12, zero bin 5.5:
+    m = 5, le = 6); the 4-point damping step changes the sum of a unit impulse at the switch row *)
+Example C01_fp_example_axis :
+  uniform QcF (Q2Qc (1 # 2)) (fun j => (Qcz j * Q2Qc (1 # 2) - Q2Qc (11 # 4))%Qc)
+  /\ dom4 12 6 5 /\ 5 <= 5 <= 12 - 5 /\ Q2Qc (1 # 2) <> 0%Qc.
+Proof.
+  split; [|split; [unfold dom4; lia|split; [lia|discriminate]]].
+  intros j. qc_unf. rewrite <- Qcz_add. change (Qcz 1) with 1%Qc. ring.
 Qed.
